@@ -86,6 +86,10 @@ class QueryJudge:
         l2 = drv.get('l2') if (case.get('quant') != 'the' and not case.get('forall') and not case.get('foralls') and not case.get('pform')) else None
         for cfg_name, cfg in res['impl'].items():
             rep.count('cache_hits_' + cfg_name, cfg['hits'])
+            if cfg.get('data_modified'):
+                # C04's last clause, checked by every query check: evaluation never modifies the user's objects
+                self.violation(f"evaluation modified the user's objects (attribute values or list contents; caching {cfg_name})",
+                               case, expected=want)
             for ev, out in enumerate(cfg['outs']):
                 rep.traces += 1
                 # Tier A for the stateful layer: the L2 machine (caches + duplicate tracking) must give the
@@ -186,7 +190,7 @@ def c02(report, rng, tier, findings):
         cfg = gen.Cfg(n_vars=(nv, nv), n_objs=(2, 4 if nv <= 3 else 3), depth=2 if nv >= 3 else 3,
                       select_terms=0.2, preds=True, select_all=0.35, single_top=0.45)
         case = gen.gen_case(rng, cfg, f'c{i}')
-        if rng.random() < 0.12:
+        if rng.random() < 0.2:
             gen.apply_or_template(rng, cfg, case)
             report.count('template_disjunction_binds_unselected_variable')
         cases.append(case)
